@@ -135,6 +135,46 @@ def route_edit(d, type_name, kind):
         _toggle(f0, "validator", None, "range(min = 1, max = 9)")
 
 
+PRIV_FIELDS = {"secret": "", "internal": "pub(crate)", "parent": "pub(super)"}
+
+
+def add_priv_fields(d):
+    """User gets one field of every non-public visibility (all of them reach types.ts)"""
+    for n, vis in PRIV_FIELDS.items():
+        _struct(d, "User")["fields"].append({"name": n, "type": "String", "public": False, "vis": vis, "rename": None,
+                                             "skip": False, "validator": None})
+    return d
+
+
+def pf_edit(d, field, kind):
+    """an edit touching only one non-public field: type | optional | rename | validator | remove | vis (next visibility)"""
+    fs = _struct(d, "User")["fields"]
+    f = [x for x in fs if x["name"] == field]
+    if kind == "remove":
+        if f:
+            fs.remove(f[0])
+        else:
+            fs.append({"name": field, "type": "String", "public": False, "vis": PRIV_FIELDS[field], "rename": None,
+                       "skip": False, "validator": None})
+        return
+    if not f:
+        return
+    f = f[0]
+    if kind == "type":
+        _toggle(f, "type", "String", "u64")
+    elif kind == "optional":
+        _toggle(f, "type", "String", "Option<String>")
+    elif kind == "rename":
+        _toggle(f, "rename", None, "hidden")
+    elif kind == "validator":
+        _toggle(f, "validator", None, "length(min = 2, max = 5)")
+    elif kind == "vis":
+        order = ["", "pub(crate)", "pub(super)", "pub"]
+        f["vis"] = order[(order.index(f.get("vis", "")) + 1) % 4]
+
+
+PF_EDITS = ["pf:%s:%s" % (f, k) for f in PRIV_FIELDS for k in ("type", "optional", "rename", "validator", "remove", "vis")]
+
 ROUTE_EDITS = ["rt:%s:%s" % (t, k) for t in ROUTE_TYPES
                for k in (("variant", "rename") if t == "EvKind" else ("field_type", "field_add", "rename", "validator"))]
 
@@ -174,7 +214,8 @@ def render_rs(f):
                     o.append("    #[serde(skip)]")
                 if fl.get("validator"):
                     o.append("    #[validate(%s)]" % fl["validator"])
-                o.append("    %s%s: %s," % ("pub " if fl["public"] else "", fl["name"], fl["type"]))
+                vis = fl.get("vis", "pub" if fl["public"] else "")
+                o.append("    %s%s: %s," % (vis + " " if vis else "", fl["name"], fl["type"]))
         o.append("}")
         o.append("")
     for c in f["commands"]:
@@ -247,7 +288,8 @@ def sx_struct(path, s):
             fields.append(["f", f["name"], "enum_variant", False, True, opt(f.get("rename")), []])
         elif not f.get("skip"):
             # is_optional as the struct parser computes it: the type is an Option
-            fields.append(["f", f["name"], f["type"], f["type"].startswith("Option<"), f["public"],
+            # is_public as the struct parser computes it: a plain `pub` only
+            fields.append(["f", f["name"], f["type"], f["type"].startswith("Option<"), f.get("vis", "pub" if f["public"] else "") == "pub",
                            opt(f.get("rename")), opt(f.get("validator"))])
     return ["s", s["name"], path, s["is_enum"], fields, opt(s.get("rename_all"))]
 
@@ -805,6 +847,9 @@ def apply_edit(desc, name):
         if part.startswith("rt:"):
             _, t, k = part.split(":")
             route_edit(d, t, k)
+        elif part.startswith("pf:"):
+            _, f_, k_ = part.split(":")
+            pf_edit(d, f_, k_)
         elif part == "force":
             e_force(d)
         elif part:
